@@ -285,21 +285,47 @@ pub struct AnimSection {
 
 impl AnimSection {
     /// Parse an animation section from a reader
+    ///
+    /// Without the section's position in the file the bone count can only be derived from `size`,
+    /// which is exact only for sections whose bones carry no key-frame data; prefer [`Self::parse_at`].
     pub fn parse<R: Read>(reader: &mut R, size: u32) -> Result<Self> {
+        Self::parse_at(reader, size, None)
+    }
+
+    /// Parse an animation section that starts at file offset `section_offset`
+    ///
+    /// The bone offset table has no stored length. Its entries are absolute file offsets and the bones'
+    /// key-frame data follows the table directly, so the first non-zero entry marks the table's end.
+    pub fn parse_at<R: Read>(
+        reader: &mut R,
+        size: u32,
+        section_offset: Option<u32>,
+    ) -> Result<Self> {
         let header = AnimSectionHeader::parse(reader)?;
 
-        // Determine the bone count
         let header_size = 16; // "AFID" + id + start + end
-        let remaining_size = size.checked_sub(header_size).ok_or_else(|| {
-            M2Error::ParseError(format!("anim section size {size} is below its {header_size}-byte header"))
-        })?;
-        let bone_count = remaining_size / 4; // Each bone animation reference is 4 bytes
-
-        // Read bone animation offsets
-        let mut bone_offsets = Vec::with_capacity(bone_count as usize);
-        for _ in 0..bone_count {
-            bone_offsets.push(reader.read_u32_le()?);
+        if size < header_size {
+            return Err(M2Error::ParseError(format!(
+                "anim section size {size} is below its {header_size}-byte header"
+            )));
         }
+
+        // Read bone animation offsets (4 bytes each) up to the end of the table
+        let mut table_end = size; // relative to the section start
+        let mut position = header_size;
+        let mut bone_offsets = Vec::new();
+        while position + 4 <= table_end {
+            let offset = reader.read_u32_le()?;
+            position += 4;
+            if offset > 0
+                && let Some(start) = section_offset
+                && bone_offsets.iter().all(|&o| o == 0)
+            {
+                table_end = table_end.min(offset.saturating_sub(start)).max(position);
+            }
+            bone_offsets.push(offset);
+        }
+        let bone_count = bone_offsets.len() as u32;
 
         // Read bone animations
         let mut bone_animations = Vec::with_capacity(bone_count as usize);
@@ -780,7 +806,7 @@ impl AnimParser {
 
         for entry in &entries {
             reader.seek(SeekFrom::Start(entry.offset as u64))?;
-            sections.push(AnimSection::parse(reader, entry.size)?);
+            sections.push(AnimSection::parse_at(reader, entry.size, Some(entry.offset))?);
         }
 
         Ok(AnimFile {
